@@ -260,7 +260,7 @@ PROPS = {
         stages=[dict(test="TestC08", quick=(16, 25), thorough=(16, 2000), timeout=dict(quick=900, thorough=3300))],
         rule="case = TSS group present/absent, initial nonces 0-12, fee per signer, base packet fee (multi-denom), signing period, and 12-50 ops "
              "(create TSS/IBC tunnel with 1-3 signals and soft/hard deviations, fund fee payer at k*fee+{-1,0,1}, validator price moves placed "
-             "at old*(1+-bps/10^4)+{-1,0,1} / zero / unsupported / unavailable, manual trigger by creator or stranger, activate/deactivate, "
+             "at old*(1+-bps/10^4)+{-1,0,1} / zero / unsupported / unavailable, manual trigger by creator or stranger, activate/deactivate, deposits by a second account and withdrawals that take an active tunnel below / exactly to the minimum deposit (a withdrawal below the minimum is a deactivation: no packet afterwards, also when intervals fall due), "
              "nonce top-up/drain, end block with dt 0-30s); non-trivial = >=1 deviation-triggered packet AND >=1 interval packet AND >=1 failed "
              "send or unfunded deactivation; distinct = hash of case JSON",
         explanation="reference trigger rule in big.Int (sendAll iff now >= lastFull + interval; else any signal with dev >= hard, carrying dev >= soft; "
